@@ -129,6 +129,17 @@ type onsOp struct {
 	Amt    *big.Int
 	Gas    int64 // fee gas limit (0 = default)
 	Note   string
+	Cur    string // payment currency ("" = OLT)
+	Forge  int    // k > 0: the signer *field* carries the address of account k-1 although Signer signs (must be refused)
+	BadSig bool   // the signature is over other bytes (must be refused)
+	LowFee bool   // fee price below the minimum (must be refused)
+}
+
+func (o onsOp) cur() string {
+	if o.Cur == "" {
+		return "OLT"
+	}
+	return o.Cur
 }
 
 func (o onsOp) String() string {
@@ -148,7 +159,24 @@ func (o onsOp) String() string {
 	if note == "" {
 		note = "-"
 	}
-	return fmt.Sprintf("  op %s signer=%d other=%d name=%s uri=%s flag=%d amt=%s gas=%d note=%s", o.Kind, o.Signer, o.Other, o.Name, uri, fl, amt, o.Gas, note)
+	name := o.Name
+	if name == "" {
+		name = "-"
+	}
+	line := fmt.Sprintf("  op %s signer=%d other=%d name=%s uri=%s flag=%d amt=%s gas=%d note=%s", o.Kind, o.Signer, o.Other, name, uri, fl, amt, o.Gas, note)
+	if o.Cur != "" && o.Cur != "OLT" {
+		line += " cur=" + o.Cur
+	}
+	if o.Forge > 0 {
+		line += fmt.Sprintf(" forge=%d", o.Forge)
+	}
+	if o.BadSig {
+		line += " badsig=1"
+	}
+	if o.LowFee {
+		line += " lowfee=1"
+	}
+	return line
 }
 
 func parseOnsOp(line string) (onsOp, error) {
@@ -170,6 +198,17 @@ func parseOnsOp(line string) (onsOp, error) {
 			o.Other, _ = strconv.Atoi(kvp[1])
 		case "name":
 			o.Name = kvp[1]
+			if o.Name == "-" && !strings.HasPrefix(o.Kind, "gov-") {
+				o.Name = ""
+			}
+		case "cur":
+			o.Cur = kvp[1]
+		case "forge":
+			o.Forge, _ = strconv.Atoi(kvp[1])
+		case "badsig":
+			o.BadSig = kvp[1] == "1"
+		case "lowfee":
+			o.LowFee = kvp[1] == "1"
 		case "uri":
 			if kvp[1] != "-" {
 				b, err := hex.DecodeString(kvp[1])
@@ -262,9 +301,28 @@ func (e *onsRun) txOf(o onsOp) []byte {
 	if o.Gas > 0 {
 		f.Gas = o.Gas
 	}
+	if o.LowFee {
+		f.Price.Value = *balance.NewAmount(100000000) // minimum is 10^9
+	}
 	e.memo++
 	s := e.w.Accts[o.Signer]
-	return Sign(RawOf(e.msgOf(o, s.Addr, "OLT"), f, fmt.Sprintf("ons-%d", e.memo)), s)
+	owner := s.Addr
+	if o.Forge > 0 {
+		owner = e.w.Accts[o.Forge-1].Addr
+	}
+	raw := RawOf(e.msgOf(o, owner, o.cur()), f, fmt.Sprintf("ons-%d", e.memo))
+	if o.BadSig {
+		// a genuine signature of the same key, but over another transaction
+		other := raw
+		other.Memo += "-x"
+		st := action.SignedTx{RawTx: raw, Signatures: []action.Signature{{Signer: s.Pub, Signed: s.Sign(other.RawBytes())}}}
+		b, err := serialize.GetSerializer(serialize.NETWORK).Serialize(&st)
+		if err != nil {
+			panic(err)
+		}
+		return b
+	}
+	return Sign(raw, s)
 }
 
 // ---------------------------------------------------------------- decoded state
@@ -320,7 +378,7 @@ func (d *domRec) token() string {
 type onsState struct {
 	Recs map[string]*domRec  // by name
 	Keys map[string]string   // name -> raw key (sorted order of the store)
-	Bals map[string]*big.Int // hex address -> OLT balance
+	Bals map[string]*big.Int // "<hex address>/<currency>" -> balance
 	Pool *big.Int
 	Base *big.Int
 	PerB *big.Int
@@ -361,9 +419,11 @@ func decodeOns(view map[string]string) *onsState {
 			}
 			st.Recs[name] = r
 			st.Keys[name] = k
-		case strings.HasPrefix(k, "b_0lt") && strings.HasSuffix(k, "_OLT"):
-			if n := AmountOf(v); n != nil {
-				st.Bals[k[5:len(k)-4]] = n
+		case strings.HasPrefix(k, "b_0lt"):
+			if i := strings.LastIndex(k, "_"); i > 5 {
+				if n := AmountOf(v); n != nil {
+					st.Bals[k[5:i]+"/"+k[i+1:]] = n
+				}
 			}
 		case k == poolKey:
 			if n := AmountOf(v); n != nil {
@@ -487,6 +547,23 @@ func errClass(kind string, log string) (handlerErr string, feeErr string) {
 	msg := log
 	if err := json.Unmarshal([]byte(log), &obj); err == nil {
 		msg = obj.Msg
+	} else {
+		// not the handler's marshalled ProtocolError: DeliverTx's Validate refused the transaction
+		switch {
+		case strings.Contains(log, "unmatch signers"):
+			return "vSigner", ""
+		case strings.Contains(log, "invalid signatures"):
+			return "vSignature", ""
+		case strings.Contains(log, "fee price is smaller than minimal fee"):
+			return "vFee", ""
+		case strings.Contains(log, "missing data in transaction"):
+			return "vMissing", ""
+		case strings.Contains(log, "invalid domain name"):
+			return "vBadName", ""
+		case strings.Contains(log, "300104: invalid amount"):
+			return "vBadAmount", ""
+		}
+		return "other:" + strconv.Quote(log), ""
 	}
 	hmsg := msg
 	if i := strings.Index(msg, ", fee response log: "); i >= 0 {
@@ -579,6 +656,14 @@ func b01(b bool) string {
 // opTokens renders the operation part of a correspondence line.
 func (e *onsRun) opTokens(o onsOp) string {
 	s := dashHex(e.addrOf(o.Signer))
+	if o.Forge > 0 {
+		s = dashHex(e.addrOf(o.Forge - 1))
+	}
+	name := o.Name
+	if name == "" {
+		name = "-"
+	}
+	o.Name = name
 	ot := dashHex(e.addrOf(o.Other))
 	uri := "-"
 	if o.Uri != "" {
@@ -586,17 +671,17 @@ func (e *onsRun) opTokens(o onsOp) string {
 	}
 	switch o.Kind {
 	case "create":
-		return fmt.Sprintf("create %s %s %s %s %s %s", s, ot, o.Name, uri, b01(uriOK(o.Uri)), o.Amt)
+		return fmt.Sprintf("create %s %s %s %s %s %s %s", s, ot, o.Name, uri, b01(uriOK(o.Uri)), o.Amt, o.cur())
 	case "update":
 		return fmt.Sprintf("update %s %s %s %s %s %s", s, ot, o.Name, b01(o.Flag), uri, b01(uriOK(o.Uri)))
 	case "sale":
-		return fmt.Sprintf("sale %s %s %s %s", s, o.Name, o.Amt, b01(o.Flag))
+		return fmt.Sprintf("sale %s %s %s %s %s", s, o.Name, o.Amt, o.cur(), b01(o.Flag))
 	case "purchase":
-		return fmt.Sprintf("purchase %s %s %s %s", s, ot, o.Name, o.Amt)
+		return fmt.Sprintf("purchase %s %s %s %s %s", s, ot, o.Name, o.Amt, o.cur())
 	case "send":
-		return fmt.Sprintf("send %s %s %s", s, o.Name, o.Amt)
+		return fmt.Sprintf("send %s %s %s %s", s, o.Name, o.Amt, o.cur())
 	case "renew":
-		return fmt.Sprintf("renew %s %s %s", s, o.Name, o.Amt)
+		return fmt.Sprintf("renew %s %s %s %s", s, o.Name, o.Amt, o.cur())
 	default:
 		return fmt.Sprintf("delsub %s %s", s, o.Name)
 	}
@@ -630,9 +715,11 @@ func stateTokens(names []string, st *onsState, addrs []string) string {
 		sb.WriteByte(' ')
 		sb.WriteString(st.Recs[n].token())
 	}
-	fmt.Fprintf(&sb, " B %d", len(addrs))
+	fmt.Fprintf(&sb, " B %d", 2*len(addrs))
 	for _, a := range addrs {
-		fmt.Fprintf(&sb, " %s=%s", a, st.bal(a))
+		for _, c := range []string{"OLT", "VT"} {
+			fmt.Fprintf(&sb, " %s/%s=%s", a, c, st.bal(a+"/"+c))
+		}
 	}
 	fmt.Fprintf(&sb, " P %s", st.Pool)
 	return sb.String()
@@ -693,7 +780,11 @@ func (e *onsRun) deliver(o onsOp, tx []byte, height int64) TxResult {
 			feeObs = "0"
 		}
 	}
-	fee := DefaultFee()
+	feeP := feePrice()
+	if o.LowFee {
+		feeP = big.NewInt(100000000)
+	}
+	minFee := e.w.State.Governance.FeeOption.MinFee().Amount.BigInt()
 	var tree []string
 	for k := range e.committed {
 		if strings.HasPrefix(k, "d_") {
@@ -707,9 +798,9 @@ func (e *onsRun) deliver(o onsOp, tx []byte, height int64) TxResult {
 	}
 	addrs := e.addrSet(o, pre)
 	preNames := pre.names()
-	in := fmt.Sprintf("ons %d %d %s %s %s %s %s %s %s T %d %s%s", height, version, pre.Base, pre.PerB, strings.Join(pre.Tlds, ","),
-		fee.Price.Value.BigInt(), feeObs, hex.EncodeToString(e.w.Accts[o.Signer].Addr), e.opTokens(o), len(tnames), strings.Join(tnames, " "),
-		map[bool]string{true: " ", false: ""}[len(tnames) > 0]) + stateTokens(preNames, pre, addrs)
+	in := fmt.Sprintf("ons %d %d %s %s %s %s %s %s %s %s OLT OLT,VT,BTC,ETH,TTC %s T %d %s ", height, version, pre.Base, pre.PerB, strings.Join(pre.Tlds, ","),
+		feeP, minFee, feeObs, hex.EncodeToString(e.w.Accts[o.Signer].Addr), b01(!o.BadSig), e.opTokens(o), len(tnames), strings.Join(tnames, " ")) +
+		stateTokens(preNames, pre, addrs)
 	in = strings.Join(strings.Fields(in), " ")
 	var postNames []string
 	for _, n := range preNames {
@@ -814,8 +905,22 @@ func (e *onsRun) monitorTx(o onsOp, tr TxResult, code string, height, version in
 		}
 		want[a].Add(want[a], x)
 	}
-	add(signer, new(big.Int).Neg(fee))
+	olt := func(a string) string { return a + "/OLT" }
+	add(olt(signer), new(big.Int).Neg(fee))
 	paySig := o.Kind + "-payment-mismatch"
+	// rules of Validate, now enforced by DeliverTx itself
+	if o.Forge > 0 && o.Forge-1 != o.Signer {
+		e.hit("deliver-admits-forged-owner", detail("signer field of account %d, signed by account %d", o.Forge-1, o.Signer))
+	}
+	if o.BadSig {
+		e.hit("deliver-admits-bad-signature", detail(""))
+	}
+	if o.LowFee {
+		e.hit("deliver-admits-fee-below-minimum", detail(""))
+	}
+	if o.cur() != "OLT" && o.Kind != "send" && o.Kind != "update" && o.Kind != "delsub" {
+		e.hit("deliver-admits-non-olt-payment", detail("currency %s", o.cur()))
+	}
 	root := rootOf(o.Name)
 	d := pre.Recs[o.Name]
 	perB := pre.PerB
@@ -833,7 +938,7 @@ func (e *onsRun) monitorTx(o onsOp, tr TxResult, code string, height, version in
 		if n.Owner != signer {
 			e.hit("created-record-owned-by-non-signer", detail("owner %s", n.Owner))
 		}
-		add(signer, new(big.Int).Neg(o.Amt))
+		add(olt(signer), new(big.Int).Neg(o.Amt))
 		wantPool.Add(wantPool, o.Amt)
 		if isSubName(o.Name) {
 			p := pre.Recs[root]
@@ -851,7 +956,7 @@ func (e *onsRun) monitorTx(o onsOp, tr TxResult, code string, height, version in
 		}
 	case "renew":
 		n := post.Recs[o.Name]
-		add(signer, new(big.Int).Neg(o.Amt))
+		add(olt(signer), new(big.Int).Neg(o.Amt))
 		wantPool.Add(wantPool, o.Amt)
 		if d == nil || n == nil {
 			e.hit("renew-of-missing-name-succeeded", detail(""))
@@ -898,8 +1003,8 @@ func (e *onsRun) monitorTx(o onsOp, tr TxResult, code string, height, version in
 				e.hit("purchase-below-asking-price", detail("asking %v", d.SalePrice))
 				break
 			}
-			add(signer, new(big.Int).Neg(o.Amt))
-			add(d.Owner, d.SalePrice)
+			add(olt(signer), new(big.Int).Neg(o.Amt))
+			add(olt(d.Owner), d.SalePrice)
 			rem := new(big.Int).Sub(o.Amt, d.SalePrice)
 			wantPool.Add(wantPool, rem)
 			anchor := d.Expire
@@ -913,7 +1018,7 @@ func (e *onsRun) monitorTx(o onsOp, tr TxResult, code string, height, version in
 				e.hit("expired-purchase-below-base-price", detail("base %s", pre.Base))
 				break
 			}
-			add(signer, new(big.Int).Neg(o.Amt))
+			add(olt(signer), new(big.Int).Neg(o.Amt))
 			wantPool.Add(wantPool, o.Amt)
 			wantQ = floorDiv(new(big.Int).Sub(o.Amt, pre.Base), perB)
 			wantExp = new(big.Int).Add(big.NewInt(version), wantQ)
@@ -947,8 +1052,11 @@ func (e *onsRun) monitorTx(o onsOp, tr TxResult, code string, height, version in
 		if !d.Active || d.Expire <= version {
 			e.hit("send-to-inactive-or-expired-name", detail("active=%v expiry=%d", d.Active, d.Expire))
 		}
-		add(signer, new(big.Int).Neg(o.Amt))
-		add(d.Benef, o.Amt)
+		add(signer+"/"+o.cur(), new(big.Int).Neg(o.Amt))
+		add(d.Benef+"/"+o.cur(), o.Amt)
+		if o.cur() != "OLT" {
+			e.nontriv["send-other-currency"] = true
+		}
 	}
 	// payment coupling
 	okPay := dPool.Cmp(wantPool) == 0
@@ -1493,7 +1601,7 @@ type OnsOptions struct {
 	Debug     bool
 }
 
-const onsRule = "case = one generated block history of the ONS transaction kinds (create/update/sell/purchase/send/renew/delete-sub by owners and strangers on 4 root names, invalid names and sub-names, 0..maxtxs per block, lifetimes of 0-8 blocks, 5 genesis price families, a poor account, in one history of three a config-update proposal that changes perBlockFees or baseDomainPrice mid-history) executed through DeliverTx on the real application; every DeliverTx is a stateless correspondence step (decoded pre-state + op -> result class + post-state, Lean model vs implementation) and a monitor evaluation; non-trivial = the history contains a successful purchase of a name on sale, a successful purchase of an expired name, a successful sub-domain creation and a successful renew or delete-sub by the owner; distinct = SHA-256 of the history lines"
+const onsRule = "case = one generated block history of the ONS transaction kinds (create/update/sell/purchase/send/renew/delete-sub by owners and strangers on 4 root names, invalid names and sub-names, 0..maxtxs per block, lifetimes of 0-8 blocks, 5 genesis price families, a poor account, in one history of three a config-update proposal that changes perBlockFees or baseDomainPrice mid-history; about 1 op in 10 is a variant Validate must refuse: forged owner field, signature over other bytes, fee below minimum, payment in VT / an unregistered currency, empty name; sends also in VT) executed through DeliverTx on the real application; every DeliverTx is a stateless correspondence step (decoded pre-state + op -> result class + post-state, Lean model vs implementation) and a monitor evaluation; non-trivial = the history contains a successful purchase of a name on sale, a successful purchase of an expired name, a successful sub-domain creation and a successful renew or delete-sub by the owner; distinct = SHA-256 of the history lines"
 
 func RunOns(opt OnsOptions) (*Result, error) {
 	res := NewResult("ons", opt.Seed, onsRule)
@@ -1588,6 +1696,45 @@ func RunOns(opt OnsOptions) (*Result, error) {
 					o.Gas = 10
 					o.Note += ",low-gas"
 				}
+				// variants that Validate (now part of DeliverTx) must refuse, and sends in another currency
+				switch x := r.Intn(100); {
+				case x < 4:
+					victim := r.Intn(len(e.w.Accts))
+					if d := st.Recs[rootOf(o.Name)]; d != nil {
+						victim = g.acctOf(e.w, d.Owner)
+					}
+					if victim != o.Signer {
+						o.Forge = victim + 1
+						o.Note += ",forged-owner-field"
+					}
+				case x < 6:
+					o.BadSig = true
+					o.Note += ",bad-signature"
+				case x < 7:
+					o.LowFee = true
+					o.Note += ",fee-below-minimum"
+				case x < 10:
+					if o.Kind == "create" || o.Kind == "sale" || o.Kind == "purchase" || o.Kind == "renew" {
+						o.Cur = []string{"VT", "XYZ"}[r.Intn(2)]
+						o.Note += ",not-olt"
+					}
+				case x < 11:
+					o.Name = ""
+					o.Note += ",empty-name"
+				}
+				if o.Kind == "send" && o.Cur == "" {
+					switch r.Intn(6) {
+					case 0, 1:
+						o.Cur = "VT"
+						if o.Amt.Sign() > 0 {
+							o.Amt = big.NewInt(int64(r.Intn(700)))
+						}
+					case 2:
+						if r.Intn(4) == 0 {
+							o.Cur = "XYZ"
+						}
+					}
+				}
 				ops = append(ops, o)
 				// Validate-only rules, probed through CheckTx (never delivered)
 				if r.Intn(12) == 0 {
@@ -1663,7 +1810,7 @@ func replayOnsFile(path string, res *Result, c int, hl *HistoryLog, debug bool) 
 			if err != nil {
 				return nil, err
 			}
-			if e == nil || o.Signer < 0 || (o.Signer >= len(e.w.Accts) && o.Kind != "gov-vote") || o.Other >= len(e.w.Accts) {
+			if e == nil || o.Signer < 0 || (o.Signer >= len(e.w.Accts) && o.Kind != "gov-vote") || o.Other >= len(e.w.Accts) || o.Forge > len(e.w.Accts) {
 				return nil, fmt.Errorf("bad op line %q", line)
 			}
 			ops = append(ops, o)
